@@ -11,6 +11,7 @@ import (
 
 func init() {
 	RegisterUF("totp_ok", SBool, SStr, SStr)
+	RegisterUF("totp_okc", SBool, SStr, SStr, SInt, SInt, SInt, SInt)
 }
 
 func setField(st *Struct, t types.Type, name string, v Value) {
@@ -25,6 +26,31 @@ func registerThirdParty(p *Program) {
 	I["github.com/pquerna/otp/totp.Validate"] = func(ex *Exec, fr *frame, fn *ssa.Function, a []Value) Value {
 		// validity is not varied with the instant inside one harness run (stated bound)
 		return App("totp_ok", SBool, tstr(a[0]), tstr(a[1]))
+	}
+	// totp.ValidateCustom(code, secret, t, opts): with the options totp.Validate itself uses
+	// (period 30, skew 1, six digits, SHA1) it is the same predicate; any other option set is a
+	// different arbitrary predicate, related to the standard one only where the relation is
+	// certain: skew 0 accepts a subset of the standard window, a larger skew a superset.
+	I["github.com/pquerna/otp/totp.ValidateCustom"] = func(ex *Exec, fr *frame, fn *ssa.Function, a []Value) Value {
+		tt := fn.Signature.Params().At(3).Type()
+		opts := a[3].(*Struct)
+		get := func(name string) *Term { return tstr(opts.F[fieldIndex(tt, name)].V) }
+		period, skew, digits, alg := get("Period"), get("Skew"), get("Digits"), get("Algorithm")
+		code, secret := tstr(a[0]), tstr(a[1])
+		base := App("totp_ok", SBool, code, secret)
+		std := period.IsConst() && digits.IsConst() && alg.IsConst() && period.I.Int64() == 30 && digits.I.Int64() == 6 && alg.I.Int64() == 0
+		if std && skew.IsConst() && skew.I.Int64() == 1 {
+			return Tuple{base, nilError}
+		}
+		c := App("totp_okc", SBool, code, secret, period, skew, digits, alg)
+		if std && skew.IsConst() {
+			if skew.I.Int64() == 0 {
+				ex.addPC(Implies(c, base))
+			} else {
+				ex.addPC(Implies(base, c))
+			}
+		}
+		return Tuple{c, nilError}
 	}
 	I["github.com/pquerna/otp/totp.Generate"] = func(ex *Exec, fr *frame, fn *ssa.Function, a []Value) Value {
 		if ex.Decide(ex.faultBool("totp.Generate")) {
